@@ -241,7 +241,8 @@ theorem setup_exists (N : Net) (f : Nat) (hv : Valid N.nVals N.h) (hfa : N.Frame
                 rw [List.filter_eq_self.2 (fun _ _ => rfl)]
               limit := (C11.limit_is_maxint32 _).2 htot }
     obs := fun a b => by simp
-    roots := rootsOf_mem N
+    roots_sound := fun g r h => (rootsOf_mem N g r).1 h
+    roots_seen := roots_seen_of_iff (rootsOf_mem N)
     nodup := rootsOf_nodup N
     creators := fun e he => (valid_ev hv e he).creator_lt
     slots := N.slotUnique_of_BFT hv hfa hbft
